@@ -87,7 +87,10 @@ class Placeholder(str):
     registry = {}
 
     def __new__(cls, value, spec):
-        key = "⟦%d⟧" % len(cls.registry)
+        import hashlib
+        t = getattr(value, "t", None)
+        sig = "%s/%s" % (getattr(value, "num", t), getattr(value, "den", "")) if not isinstance(value, str) else value
+        key = "⟦%s⟧" % hashlib.sha1(("%s|%s|%s" % (type(value).__name__, sig, spec)).encode()).hexdigest()[:10]
         s = super().__new__(cls, key)
         s.value = value
         s.spec = spec
